@@ -398,7 +398,13 @@ def evaluate(trace):
     return out
   ref = None
   for si, sched in enumerate(trace["schedules"]):
-    v, finals, st = simulate_real(wl, planned, plan, steps, sched)
+    try:
+      v, finals, st = simulate_real(wl, planned, plan, steps, sched)
+    except ninja_model.PlanRejected as ex:
+      # e.g. a declared input that neither exists nor is produced
+      out["violation"] = {"class": "I1", "oracle": "plan_accepted", "what": str(ex),
+                          "schedule_index": si}
+      break
     stats["builds"] += 1
     stats["real_steps"] += st["real_steps"]
     stats["accesses"] += st["accesses"]
